@@ -29,6 +29,28 @@ def repo_root():
     return os.path.realpath(os.environ.get('VERIF_REPO_ROOT', '/repo'))
 
 
+def repo_method(cls, name):
+    """The function `cls` answers `name` with, looked up along the MRO the way Python does - whether the class defines it
+    itself or inherits it from a (private) base class or mixin of the tree under test.  -> (function, defined_in_cls) or
+    (None, False) when the attribute is missing or is not a plain function of the tree (float's own operators, ...)."""
+    import types
+    for k in cls.__mro__:
+        if name in k.__dict__:
+            f = k.__dict__[name]
+            if isinstance(f, types.FunctionType) and (getattr(f, '__module__', '') or '').split('.')[0] == 'geodepy':
+                return f, (k is cls)
+            return None, False
+    return None, False
+
+
+def restore_method(cls, name, fn, own):
+    """undo setattr(cls, name, wrapper): put the class's own function back, or remove the shadow of an inherited one"""
+    if own:
+        setattr(cls, name, fn)
+    elif name in cls.__dict__:
+        delattr(cls, name)
+
+
 class Inconclusive(Exception):
     """The harness could not decide (oracle self-check failed, monitor never reached, ...)."""
 
